@@ -43,8 +43,8 @@ func vIsTrivialSound(depth int) {
 	vreach("end")
 }
 
-func VerifC11_IsTrivialDepth0() { vIsTrivialSound(0) }
-func VerifC11_IsTrivialDepth1() { vIsTrivialSound(1) }
+func VerifC11_IsTrivialDepth0()  { vIsTrivialSound(0) }
+func VerifC11_IsTrivialDepth1()  { vIsTrivialSound(1) }
 func VerifC11T_IsTrivialDepth2() { vIsTrivialSound(2) }
 
 // the registry stores the flags computed by isTrivial / isRelation for the real harness types
